@@ -2,6 +2,7 @@
 under monitors, projecting records, strict comparisons."""
 import io
 
+from mon.oracle import jsoncanon
 from mon.monitor.streams import MonitoredStream, consumption
 
 
@@ -123,6 +124,18 @@ def diff_records(expected, got, ignore=()):
     return None
 
 
+def diff_records_tolerant(expected, got, data, want, layout):
+    """diff_records, but a different ``length`` / ``line`` is tolerated when
+    the bytes read differ from the oracle's only in JSON spelling."""
+    d = diff_records(expected, got)
+    if d is not None and data != want and d[0] in (
+            'option_value_differs:length', 'record_line_differs'):
+        ok, mech, _ = bytes_equivalent(data, want, layout)
+        if ok:
+            return diff_records(expected, got, ignore=('length', 'line'))
+    return d
+
+
 def exc_mechanism(exc):
     """(class name, innermost pydiffx function) of an exception."""
     import traceback
@@ -154,3 +167,71 @@ def encstack_probe(gen):
         return list(fr.f_locals.get('encodings') or [])
     except Exception:
         return None
+
+
+# ------------------------------------------------------------------ byte
+# comparison of writer output with the oracle serializer, tolerant of JSON
+# string-escape style / number spelling (the specification fixes key order,
+# indentation and separators of metadata, not how strings are escaped)
+def attribute(data, want, secs, layout):
+    """Where do writer bytes and oracle bytes part? Returns (mechanism,
+    detail); (None, None) when the only difference is JSON spelling."""
+    if len(secs) != len(layout):
+        return 'section_count', {'got': [s['id'] for s in secs],
+                                 'want': [s['id'] for s in layout]}
+    only_json = True
+    for i, (s, w) in enumerate(zip(secs, layout)):
+        if s['id'] != w['id']:
+            return 'section_id', {'index': i, 'got': s['id'],
+                                  'want': w['id']}
+        hgot = data[s['hoff']:data.index(b'\n', s['hoff']) + 1]
+        hwant = want[w['hoff']:w['hoff'] + w['hlen']]
+        go = dict(s['options'])
+        wo = dict(w['options'])
+        if w['kind'] == 'meta':
+            # compare header modulo length, content by JSON denotation
+            go.pop('length', None)
+            wo.pop('length', None)
+            if go != wo:
+                return 'header_options', {'index': i, 'got': hgot,
+                                          'want': hwant}
+            raw_w = want[w['coff']:w['coff'] + w['clen']]
+            if s.get('raw') != raw_w:
+                try:
+                    a = s['raw'].decode(s['codec'])
+                    b = raw_w.decode(w['codec'])
+                except Exception:
+                    return 'meta_bytes', {'index': i}
+                if not jsoncanon.same_layout(a, b):
+                    return 'meta_json_layout', {'index': i, 'got': a[:300],
+                                                'want': b[:300]}
+            continue
+        if hgot != hwant:
+            return 'header_bytes', {'index': i, 'got': hgot, 'want': hwant}
+        if w['kind'] != 'container':
+            raw_w = want[w['coff']:w['coff'] + w['clen']]
+            if s.get('raw') != raw_w:
+                return '%s_content_bytes' % w['kind'], {
+                    'index': i, 'got': s.get('raw', b'')[:200],
+                    'want': raw_w[:200]}
+    if only_json:
+        return None, None
+    return 'bytes', {}
+
+
+
+
+def bytes_equivalent(data, want, layout):
+    """(ok, mechanism, detail): ok when data == want, or when they differ
+    only in the spelling of JSON strings / numbers of metadata sections (with
+    the declared length following the actual bytes)."""
+    if data == want:
+        return True, None, None
+    from mon.oracle import scanner
+    secs, problems = scanner.scan(data)
+    if problems:
+        return False, 'unscannable:%s' % problems[0][0], {'offset': problems[0][1]}
+    mech, detail = attribute(data, want, secs, layout)
+    if mech is None:
+        return True, 'json_spelling', None
+    return False, mech, detail
